@@ -245,6 +245,16 @@ def run_ops(model, ops, observer, F=None, on_call_end=None, prefix='C03'):
             if on_call_end is not None:
                 on_call_end(ci, {'ci': ci, 'op': 'set_temperature', 'spec': op['spec']})
             continue
+        if op['op'] == 'reconfigure':
+            # calibration-sweep history: the SAME model object is reset and given other energies, then solved again
+            model.reset()
+            for ph, g in op.get('gamma', {}).items():
+                model.setInterfacialEnergy(g, phase=ph)
+            if 'gbEnergy' in op:
+                model.setGrainBoundaryEnergy(op['gbEnergy'])
+            if on_call_end is not None:
+                on_call_end(ci, {'ci': ci, 'op': 'reconfigure'})
+            continue
         if op['op'] != 'solve':
             continue
         t_start = float(model.pData.time[model.pData.n])
@@ -342,7 +352,7 @@ def gen_stub_config(rng, nphase=None, nel=None, temperature='const', allow_gb=Tr
     cfg = {'backend': 'stub_bin' if nel == 1 else 'stub_multi', 'phases': phases, 'thermo_phase_order': list(phases), 'elements': elements, 'x0': x0,
            'T': {'kind': 'const', 'T': Tref * rng.choice([1.0, 1.0, 0.97, 1.03])},
            'T_via': rng.choice(['setter', 'ctor']),
-           'VmA': gen_volume(rng, VmA), 'gbEnergy': rng.choice([0.3, 0.1, 0.2]),
+           'VmA': gen_volume(rng, VmA), 'gbEnergy': rng.choice([0.3, 0.1, 0.2, 0.0]),
            'pbm': {'cMin': 1e-10, 'cMax': rng.choice([2e-9, 5e-9, 1e-8]), 'bins': bins, 'minBins': minBins, 'maxBins': maxBins, 'adaptive': rng.random() < 0.8},
            'phase_params': pp, 'constraints': {}, 'record_psd': False}
     # keep the grain-boundary ratio admissible (kawin raises ValueError before the first step otherwise)
